@@ -59,6 +59,7 @@ def main(tier):
                  sigfn=lambda r, rej: "server:len%d" % rej["event"].get("len", 0), key="c12")
     from checks import c06
     c06.residue_family(chk, tier, seed)
+    c06.history_family(chk, tier, seed)
     # the client's reply decoder itself (read_dns_withq via the include-driver): cut-down variants of real answers of
     # every type x codec x size - every record boundary with RDLENGTH patched to the 0 / 1 / 2 bytes left, and cuts at
     # other places - decoded under eight paintings of the receive buffer; result, bytes and type must all agree
